@@ -24,6 +24,8 @@ typedef bxdecay0::decay0_generator G;
 
 static const double EMASS = 0.51099906, AMASS = 3727.417;
 static const size_t DEV_LIMIT = 20000;
+// rejection sampling inside an energy window is slower by about the full-range/window ratio: the work bound scales with it
+static size_t g_shot_limit = DEV_LIMIT;
 
 struct Cfg
 {
@@ -267,9 +269,9 @@ static void init_gen(GenRun & gr, const Cfg & c, uint64_t iseed)
 // one shot; returns consumed
 static Res shoot_and_check(Ctx & cx, const Cfg & c, G & g, Tape & tape, size_t & used, bxdecay0::event & ev, double qmax)
 {
-  Res r; TapeRandom rr(tape, 0, DEV_LIMIT);
+  Res r; TapeRandom rr(tape, 0, g_shot_limit);
   try { g.shoot(rr, ev); }
-  catch (TapeOverrun &) { used = rr.pos; r.ok = false; r.cls = "unbounded-work"; r.msg = "one shot consumed more than " + std::to_string(DEV_LIMIT) + " deviates"; return r; }
+  catch (TapeOverrun &) { used = rr.pos; r.ok = false; r.cls = "unbounded-work"; r.msg = "one shot consumed more than " + std::to_string(g_shot_limit) + " deviates"; return r; }
   catch (std::exception & e) { used = rr.pos; r.ok = false; r.cls = "exception"; r.msg = e.what(); return r; }
   used = rr.pos;
   if (cx.prop == "C04") return c04_predicate(c, ev, qmax);
@@ -292,6 +294,12 @@ static void run_config(Ctx & cx, const Cfg & c, uint64_t seed, int nev, bool hea
   init_gen(gr, c, iseed);
   if (!gr.accepted) { cx.rep.label("rejected"); cx.rep.count("configs_rejected"); return; }
   cx.rep.count("configs_accepted");
+  g_shot_limit = DEV_LIMIT;
+  if (c.kind == "dbd" && c.win) {
+    double ta = gr.g->get_to_all_events();
+    if (ta > 200.0) { cx.rep.count("configs_skipped_window_ratio_above_200"); return; } // an extreme sliver: correct but too slow to sample here
+    if (ta > 1.0) g_shot_limit = (size_t)(DEV_LIMIT * ta);
+  }
   cx.rep.label(c.kind == "bkg" ? "bkg" : ("mode:" + std::to_string(c.mode)));
   if (c.kind == "dbd") cx.rep.label("window:" + wclass);
   std::vector<double> dict = dict_for(c);
